@@ -214,12 +214,21 @@ def history_for(cases, idx, stateful):
 
 
 def run_harness(h, mode_args, timeout):
+    """Run a harness binary; its protocol stream goes to a private file (program logs may pollute stdout)."""
+    import tempfile
+    fd, outp = tempfile.mkstemp(prefix="hout-", dir=os.path.join(ROOT, "replays"))
+    os.close(fd)
+    env = dict(ENV, HARNESS_OUT_FILE=outp)
     try:
-        p = subprocess.run([harness_bin(h["bin"])] + mode_args, env=ENV, stdout=subprocess.PIPE, stderr=subprocess.PIPE,
+        p = subprocess.run([harness_bin(h["bin"])] + mode_args, env=env, stdout=subprocess.DEVNULL, stderr=subprocess.PIPE,
                            timeout=timeout, text=True)
+        out = open(outp, errors="replace").read()
+        return p.returncode, out, p.stderr[-2000:]
     except subprocess.TimeoutExpired:
         return -9, "", "timeout"
-    return p.returncode, p.stdout, p.stderr[-2000:]
+    finally:
+        try: os.unlink(outp)
+        except OSError: pass
 
 
 def correspondence(prop, h, seeds, n, corpus_files, timeout):
@@ -286,7 +295,6 @@ _REPLAY_N = 0
 
 
 def write_replay(prop, seed, kind, payload_lines):
-    os.makedirs(os.path.join(ROOT, "replays"), exist_ok=True)
     global _REPLAY_N
     _REPLAY_N += 1
     path = os.path.join(ROOT, "replays", f"{prop}-{kind}-{seed}-{_REPLAY_N}.ops")
@@ -305,6 +313,7 @@ def main(argv):
     if argv[1] == "--replay":
         return replay(prop, cfg, argv[2])
     tier = argv[1]
+    os.makedirs(os.path.join(ROOT, "replays"), exist_ok=True)
     if not os.environ.get("VERIF_HAVE_REPO_LOCK"):
         # shared lock: a mutation test (bin/mutate-check) holds it exclusively while /repo is patched
         _rl = open(os.path.join(ROOT, ".lock-repo"), "w")
@@ -436,6 +445,8 @@ def main(argv):
 
 def replay(prop, cfg, path):
     rcode = 0
+    os.makedirs(os.path.join(ROOT, "replays"), exist_ok=True)
+    path = os.path.abspath(path)
     for h in cfg.get("harness", []):
         rc, out = cargo_build(h["pkg"], h["bin"])
         if rc != 0:
